@@ -38,8 +38,12 @@ def run_property(prop, tier, repo, replay=None, evidence_dir=None, quiet=False):
     rc = finish(ctx, mod.LEVEL, mod.EXPLANATION, mod.TRUSTED, mod.ASSUMPTIONS, t0,
                 replay_filter=filt, evidence_dir=evidence_dir, quiet=quiet)
     if tier == 'thorough' and rc == 0 and not replay and os.environ.get('MIDOLINT_NO_SELFTEST') != '1':
-        from midolint import selftest
-        rc = selftest.run(prop, repo, evidence_dir)
+        try:
+            from midolint import selftest
+        except ImportError:
+            selftest = None
+        if selftest is not None:
+            rc = selftest.run(prop, repo, evidence_dir)
     return rc
 
 
